@@ -20,19 +20,30 @@ type httpState struct {
 	failures   int
 	maxFail    int
 	allowHang  bool
+	allowBadBody bool // outcome 5: an error status whose body cannot be read to the end
 }
 
 func stringsHasSuffix(s, suf string) bool { return len(s) >= len(suf) && s[len(s)-len(suf):] == suf }
 
-func httpResponse(fr *frame, code int) value {
+func httpResponse(fr *frame, code int, badBody bool) value {
 	t := pkgType("net/http", "Response")
 	st := zero(t).(structure)
 	st[fieldIndex(t, "StatusCode")] = mkI(code)
 	st[fieldIndex(t, "Status")] = mkStr(fmt.Sprintf("%d", code))
-	// Body: io.NopCloser(strings.NewReader(""))
-	rt := pkgType("strings", "Reader")
-	rd := value(zero(rt))
-	body := callPkgFunc(fr, "io", "NopCloser", []value{iface{t: types.NewPointer(rt), v: &rd}})
+	var body value
+	if badBody {
+		// Body: the harness runtime's verifFailBody (harness/rt/rt.go): every Read fails with io.ErrUnexpectedEOF
+		bt := E.harnessPkg.Type("verifFailBody")
+		if bt == nil {
+			E.inconclusive("harness runtime has no type verifFailBody")
+		}
+		body = iface{t: bt.Object().Type(), v: zero(bt.Object().Type())}
+	} else {
+		// Body: io.NopCloser(strings.NewReader(""))
+		rt := pkgType("strings", "Reader")
+		rd := value(zero(rt))
+		body = callPkgFunc(fr, "io", "NopCloser", []value{iface{t: types.NewPointer(rt), v: &rd}})
+	}
 	st[fieldIndex(t, "Body")] = body
 	cell := value(st)
 	return tuple{&cell, nilError()}
@@ -102,18 +113,26 @@ func init() {
 			rt := pkgType("net/http", "Request")
 			if u, ok := (*rq).(structure)[fieldIndex(rt, "Host")].(Str); ok {
 				if us, conc := u.concrete(); conc && us != "" && !stringsHasSuffix(us, "/metrics") {
-					return httpResponse(fr, 200)
+					return httpResponse(fr, 200, false)
 				}
 			}
 		}
 		outcome := 0
 		if h.failures < h.maxFail {
-			n := 4
+			alts := []int{0, 1, 2, 3}
 			if h.allowHang {
-				n = 5
+				alts = append(alts, 4)
 			}
-			outcome = E.choose(n)
+			if h.allowBadBody {
+				alts = append(alts, 5)
+			}
+			outcome = alts[E.choose(len(alts))]
 			E.choices = append(E.choices, outcome)
+		}
+		badBody := false
+		if outcome == 5 {
+			// an error status (5xx) whose body breaks off: the request failed like any other 5xx
+			outcome, badBody = 1, true
 		}
 		if outcome == 4 {
 			// the peer sends (part of) a response and then stalls: the exchange only ends if the client has an
@@ -141,7 +160,7 @@ func init() {
 		} else if outcome == 3 {
 			code = 400
 		}
-		return httpResponse(fr, code)
+		return httpResponse(fr, code, badBody)
 	})
 	reg("encoding/json.Unmarshal", func(fr *frame, args []value) value { return nilError() })
 	reg("(*github.com/jpillora/backoff.Backoff).Duration", func(fr *frame, args []value) value { return ConstBV(64, 1000000) })
@@ -168,6 +187,10 @@ func init() {
 	verifFuncs["verifHTTPFailures"] = func(fr *frame, a []value) value { return mkI(E.http().failures) }
 	verifFuncs["verifHTTPAllowStall"] = func(fr *frame, a []value) value {
 		E.http().allowHang = a[0].(*Term).IsTrue()
+		return nil
+	}
+	verifFuncs["verifHTTPAllowBadBody"] = func(fr *frame, a []value) value {
+		E.http().allowBadBody = a[0].(*Term).IsTrue()
 		return nil
 	}
 	verifFuncs["verifHTTPMaxFailures"] = func(fr *frame, a []value) value {
